@@ -34,6 +34,10 @@ def apply_patch(wt, patch):
             return "DOES NOT APPLY"
     sh("git reset -q", cwd=wt)
     sh("find . -name '*.orig' -o -name '*.rej' | xargs -r rm -f", cwd=wt)
+    rc, diff = sh("git diff", cwd=wt)
+    if "\n+<<<<<<<" in diff or "\n+>>>>>>>" in diff:
+        sh("git checkout -q -- . && git clean -fdq", cwd=wt)
+        return "DOES NOT APPLY"
     return "re-based"
 
 
